@@ -267,9 +267,10 @@ impl<T: BitRead> PackedRead for T {
             (upper_bound, false)
         } else {
             // 16.11
+            // the writer can fragment only if the length is written in the unconstrained form
             (
                 self.read_length_determinant(lower_bound_size, upper_bound_size)?,
-                true,
+                const_is_none!(lower_bound_size) && const_is_none!(upper_bound_size),
             )
         };
 
@@ -338,9 +339,10 @@ impl<T: BitRead> PackedRead for T {
             (upper_bound, false)
         } else {
             // 17.8
+            // the writer can fragment only if the length is written in the unconstrained form
             (
                 self.read_length_determinant(lower_bound_size, upper_bound_size)?,
-                true,
+                const_is_none!(lower_bound_size) && const_is_none!(upper_bound_size),
             )
         };
 
